@@ -88,7 +88,7 @@ POOLS = {
     "url": ["urlparse('http://www.cwi.nl:80/%7Eguido/Python.html')", "urlparse('https://github.com/x/y')"],
     "urlstr": ["'http://www.cwi.nl:80/%7Eguido/Python.html'", "'https://github.com/x/y'", "'ftp://a.b/c'"],
     "path": ["pathlib.PurePosixPath('/home/user/file.txt')", "pathlib.PureWindowsPath('C:\\\\Users\\\\x.txt')", "pathlib.PurePosixPath('/tmp')"],
-    "pathstr": ["'/home/user/file.txt'", "'/usr/bin'", "'/tmp/x y'"],
+    "pathstr": ["'/home/user/file.txt'", "'/usr/bin'", "'/tmp/x y'", "'//fileserver/share/q1.csv'"],
     "winpathstr": ["'C:\\\\Users\\\\x.txt'", "'D:\\\\data'"],
     "ip": ["ipaddress.ip_address('127.0.0.1')", "ipaddress.ip_address('::1')", "ipaddress.ip_address('8.8.8.8')"],
     "ipstr": ["'127.0.0.1'", "'::1'", "'8.8.8.8'"],
@@ -302,6 +302,9 @@ def special_stream():
         "pd.Series(['2020', '2021'])", "pd.Series(['01', '02'])", "pd.Series(['1_0'])", "pd.Series(['nan', '1.5'])", "pd.Series(['inf'])",
         "pd.Series(['True', 'yes'])", "pd.Series(['nan', 'NaN'])", "pd.Series(['nan'])", "pd.Series(['NaN', None])", "pd.Series(['-nan', 'nan', 'nan'])",
         "pd.Series(['NaT', 'NaT'])", "pd.Series(['inf', '-inf'])", "pd.Series(['nan', 'nan'], dtype=object)", "pd.Series(['nan', '1'])", "pd.Series(['NaT', '2020-01-01'])", "pd.Series([''])", "pd.Series(['', 'a'])", "pd.Series([' '])", "pd.Series(['\\x00'])",
+        "pd.Series([1.0, 2.0**63, 3.0])", "pd.Series([2.0**63])", "pd.Series([-2.0**63, 1.0])", "pd.Series([2.0**53 + 2, 1.0])", "pd.Series([2.0**64, 0.0])",
+        "pd.Series(['1', '9223372036854775808', '3'])", "pd.Series(['9223372036854775807'])", "pd.Series(['-9223372036854775809'])",
+        "pd.Series([1 + 0j, complex(2.0**63, 0)])", "pd.Series([1.0, 2.0**63], index=['r1', 'r1'], name='amount')",
         "pd.Series(['http://[::1'])", "pd.Series(['POINT (1'])", "pd.Series(['a@'])", "pd.Series(['@b'])", "pd.Series(['1+0j', '2+0j'])",
     ]
     return [{"recipe": r, "family": "special", "pool": "special", "dtype": "?", "nulls": "?", "null": None, "len": -1, "index": "None"} for r in rs]
